@@ -1,1 +1,609 @@
-// harness stub: nothing here yet
+// Correspondence harness for daemon/src/event/mod.rs (properties C08, C16).
+// Included as the body of `event::verif_hx` under cfg(all(test, osrg_rustybgp_verif)).
+//
+// C08: drives the real PeerSession::{apply_outputs, run_select, rx_msg,
+// flush_tx} and ConnArbiter::process of one connection task over a loopback
+// socket.  Real time does not pass during a case (a case takes milliseconds);
+// virtual time is advanced by moving the stored tokio sleeps' deadlines back,
+// which is all the driver can see of time.  The prologue of session_loop
+// (Connected through the arbiter, apply_outputs, result dropped) is repeated
+// here because session_loop itself never returns control.
+use super::*;
+use std::net::Ipv4Addr;
+
+#[allow(dead_code)]
+mod val {
+    include!(concat!(env!("VERIF_HX_DIR"), "/common/val.rs"));
+}
+#[allow(dead_code)]
+mod caps {
+    include!(concat!(env!("VERIF_HX_DIR"), "/common/caps.rs"));
+}
+use caps::*;
+use val::Val;
+
+use crate::fsm::{Input, Role, SessionDownReason};
+use futures::stream::FusedStream;
+use std::pin::Pin;
+use tokio::io::AsyncWriteExt;
+
+fn rt() -> &'static tokio::runtime::Runtime {
+    static RT: std::sync::OnceLock<tokio::runtime::Runtime> = std::sync::OnceLock::new();
+    RT.get_or_init(|| {
+        tokio::runtime::Builder::new_current_thread()
+            .enable_all()
+            .build()
+            .unwrap()
+    })
+}
+
+fn hx_global(asn: u32, rid: u32) -> GlobalHandle {
+    let (tx, _rx) = mpsc::unbounded_channel();
+    let (bfd_tx, _bfd_rx) = mpsc::unbounded_channel();
+    let mut g = Global::new(tx, bfd_tx);
+    g.asn = asn;
+    g.router_id = Ipv4Addr::from(rid);
+    Arc::new(tokio::sync::RwLock::new(g))
+}
+
+fn hx_context(fsm: crate::fsm::PeerFsm) -> Arc<std::sync::Mutex<PeerContext>> {
+    let conn_arbiter = Arc::new(std::sync::Mutex::new(ConnArbiter::new(fsm)));
+    Arc::new(std::sync::Mutex::new(PeerContext {
+        conn_arbiter,
+        active_connect_cancel_tx: None,
+        active_connect_join_handle: None,
+        gr_state: crate::gr::GrState::new(),
+        gr_restart_timer: None,
+        llgr_family_timers: FnvHashMap::default(),
+        rtc_state: crate::rtc::RtcState::new(),
+        rtc_eor_timer: None,
+    }))
+}
+
+async fn hx_loopback() -> (TcpStream, TcpStream) {
+    let listener = tokio::net::TcpListener::bind("127.0.0.1:0").await.unwrap();
+    let addr = listener.local_addr().unwrap();
+    let (client, server) = tokio::join!(TcpStream::connect(addr), listener.accept());
+    (client.unwrap(), server.unwrap().0)
+}
+
+fn msg_of(v: &Val) -> bgp::Message {
+    let l = v.list();
+    match l[0].int() {
+        1 => bgp::Message::Open(bgp::Open {
+            as_number: l[1].u32(),
+            router_id: l[2].u32(),
+            holdtime: HoldTime::new(l[3].u16()).expect("generator sends 0 or >=3"),
+            capability: caps_of(&l[4]),
+        }),
+        2 => bgp::Message::Update(bgp::Update::EndOfRib(Family::IPV4)),
+        3 => bgp::Message::Notification(rustybgp_packet::Notification::from_notification(
+            l[1].u8(),
+            l[2].u8(),
+            Vec::new(),
+        )),
+        4 => bgp::Message::Keepalive,
+        5 => bgp::Message::RouteRefresh { family: fam_of(&l[1]) },
+        t => panic!("verif: bad message tag {}", t),
+    }
+}
+
+fn input_of(v: &Val) -> Input {
+    let l = v.list();
+    match l[0].int() {
+        0 => Input::Connected(l[1].bool()),
+        1 => Input::MessageReceived(msg_of(&l[1])),
+        2 => Input::KeepaliveTimerExpired,
+        3 => Input::HoldTimerExpired,
+        4 => Input::Disconnected,
+        5 => Input::AdminShutdown,
+        6 => Input::UpdateSent,
+        t => panic!("verif: bad input tag {}", t),
+    }
+}
+
+fn notif_pair(m: &bgp::Message) -> Val {
+    match m {
+        bgp::Message::Notification(n) => {
+            Val::L(vec![Val::n(n.notification_code()), Val::n(n.notification_subcode())])
+        }
+        _ => Val::L(vec![Val::I(-2)]),
+    }
+}
+
+fn reason_val(r: &SessionDownReason) -> Val {
+    match r {
+        SessionDownReason::HoldTimerExpired => Val::L(vec![Val::n(0u8)]),
+        SessionDownReason::RemoteNotification(m) => {
+            let p = notif_pair(m);
+            Val::L(vec![Val::n(1u8), p.at(0).clone(), p.at(1).clone()])
+        }
+        SessionDownReason::LocalNotification(m) => {
+            let p = notif_pair(m);
+            Val::L(vec![Val::n(2u8), p.at(0).clone(), p.at(1).clone()])
+        }
+        SessionDownReason::FsmError => Val::L(vec![Val::n(3u8)]),
+        SessionDownReason::AdminShutdown => Val::L(vec![Val::n(4u8)]),
+        SessionDownReason::IoError => Val::L(vec![Val::n(5u8)]),
+    }
+}
+
+fn step_val(s: &Step) -> Val {
+    match s {
+        Step::Continue => Val::L(vec![]),
+        Step::Terminate { reason, notification } => Val::L(vec![
+            reason_val(reason),
+            Val::opt(notification.as_ref().map(notif_pair)),
+        ]),
+    }
+}
+
+const NEVER_SECS: f64 = 1.0e8;
+
+fn slot_deadline(f: &FuturesUnordered<tokio::time::Sleep>) -> Option<tokio::time::Instant> {
+    Pin::new(f).iter_pin_ref().next().map(|s| s.deadline())
+}
+
+// seconds from now to the deadline (negative when overdue)
+fn rel_secs(d: tokio::time::Instant) -> f64 {
+    let now = tokio::time::Instant::now();
+    if d >= now {
+        (d - now).as_secs_f64()
+    } else {
+        -((now - d).as_secs_f64())
+    }
+}
+
+fn slot_val(f: &FuturesUnordered<tokio::time::Sleep>) -> Val {
+    match slot_deadline(f) {
+        None => {
+            if f.is_terminated() {
+                Val::L(vec![Val::n(4u8)])
+            } else {
+                Val::L(vec![Val::n(3u8)])
+            }
+        }
+        Some(d) => {
+            let r = rel_secs(d);
+            if r > NEVER_SECS {
+                Val::L(vec![Val::n(0u8)])
+            } else if r > -0.5 {
+                Val::L(vec![Val::n(1u8), Val::I(r.round() as i128)])
+            } else {
+                Val::L(vec![Val::n(2u8)])
+            }
+        }
+    }
+}
+
+// virtual time passes: every finite deadline moves dt seconds towards the past
+fn shift_slot(f: &mut FuturesUnordered<tokio::time::Sleep>, dt: u64) {
+    if let Some(d) = slot_deadline(f) {
+        if rel_secs(d) > NEVER_SECS {
+            return;
+        }
+        let nd = d
+            .checked_sub(Duration::from_secs(dt))
+            .unwrap_or_else(|| tokio::time::Instant::now() - Duration::from_secs(1));
+        *f = vec![tokio::time::sleep_until(nd)].into_iter().collect();
+    }
+}
+
+// UPDATE announcing 10.1.2.0/24 with AS_PATH [asn], in the wire form the
+// session's negotiated codec expects
+fn loop_update_bytes(codec: &bgp::PeerCodec, asn: u32) -> Vec<u8> {
+    let mut attrs: Vec<u8> = vec![0x40, 1, 1, 0];
+    if codec.two_byte_as {
+        attrs.extend_from_slice(&[0x40, 2, 4, 2, 1]);
+        attrs.extend_from_slice(&(asn as u16).to_be_bytes());
+    } else {
+        attrs.extend_from_slice(&[0x40, 2, 6, 2, 1]);
+        attrs.extend_from_slice(&asn.to_be_bytes());
+    }
+    attrs.extend_from_slice(&[0x40, 3, 4, 10, 0, 0, 1]);
+    let mut nlri: Vec<u8> = Vec::new();
+    if codec.family_state(Family::IPV4).is_some_and(|s| s.addpath_rx) {
+        nlri.extend_from_slice(&[0, 0, 0, 1]);
+    }
+    nlri.extend_from_slice(&[24, 10, 1, 2]);
+    let len = 19 + 2 + 2 + attrs.len() + nlri.len();
+    let mut b = vec![0xffu8; 16];
+    b.extend_from_slice(&(len as u16).to_be_bytes());
+    b.push(2);
+    b.extend_from_slice(&[0, 0]);
+    b.extend_from_slice(&(attrs.len() as u16).to_be_bytes());
+    b.extend_from_slice(&attrs);
+    b.extend_from_slice(&nlri);
+    b
+}
+
+struct Hx {
+    session: PeerSession,
+    global: GlobalHandle,
+    server: TcpStream,
+    client: Option<TcpStream>,
+    rxbuf: bytes::BytesMut,
+    close_rx: CloseRxFuture,
+    local_sa: SocketAddr,
+    remote_sa: SocketAddr,
+    live: bool,
+    lasn: u32,
+    written: u64,
+    fin: bool,
+    peer_codec: Option<bgp::PeerCodec>,
+    closed_client: Option<TcpStream>,
+    outbuf: Vec<u8>,
+}
+
+impl Hx {
+    fn obs(&self, step: &Step) -> Val {
+        let arb = self.session.conn_arbiter.lock().unwrap();
+        Val::L(vec![
+            slot_val(&self.session.holdtime_futures),
+            slot_val(&self.session.keepalive_futures),
+            step_val(step),
+            Val::b(self.live),
+            Val::n(u8::from(arb.state(Role::Active))),
+            Val::n(u8::from(arb.state(Role::Passive))),
+        ])
+    }
+
+    fn unread_bytes(&self) -> usize {
+        use std::os::fd::AsRawFd;
+        let mut n: libc::c_int = 0;
+        unsafe {
+            libc::ioctl(self.server.as_raw_fd(), libc::FIONREAD, &mut n);
+        }
+        n as usize
+    }
+
+    async fn flush_client(&mut self) {
+        if self.outbuf.is_empty() {
+            return;
+        }
+        let before = self.unread_bytes();
+        let bytes = std::mem::take(&mut self.outbuf);
+        if let Some(c) = self.client.as_mut() {
+            c.write_all(&bytes).await.expect("client write");
+            for _ in 0..20000 {
+                if self.unread_bytes() >= before + bytes.len() {
+                    break;
+                }
+                tokio::time::sleep(Duration::from_micros(100)).await;
+            }
+        }
+    }
+
+    async fn select_once(&mut self) -> Step {
+        self.flush_client().await;
+        let seen = self.session.counter_rx.total.load(Ordering::Relaxed);
+        if self.written > seen || self.fin {
+            // make sure the socket's read readiness is known to tokio before the single poll
+            let _ = tokio::time::timeout(Duration::from_secs(2), self.server.readable()).await;
+        }
+        // the peer-event arm of run_select (route changes from the table) is not modelled
+        self.session.peer_event_rx = None;
+        let near = |f: &FuturesUnordered<tokio::time::Sleep>| {
+            slot_deadline(f).is_some_and(|d| rel_secs(d).abs() < 0.05)
+        };
+        let near_now = near(&self.session.holdtime_futures) || near(&self.session.keepalive_futures);
+        if near_now {
+            // tokio rounds a deadline up to its next millisecond tick: a sleep
+            // of 0 s completes a millisecond or two after it was created, and
+            // until then the writable socket arm may win the biased select
+            tokio::time::sleep(Duration::from_millis(3)).await;
+        }
+        let fut = self.session.run_select(
+            &self.global,
+            &mut self.server,
+            &mut self.rxbuf,
+            self.remote_sa,
+            self.local_sa,
+            &mut self.close_rx,
+        );
+        tokio::pin!(fut);
+        for _ in 0..6 {
+            if let std::task::Poll::Ready(s) = futures::poll!(fut.as_mut()) {
+                return s;
+            }
+            tokio::task::yield_now().await;
+        }
+        Step::Continue
+    }
+}
+
+// case = [lid, lasn, lcaps, lhold, expected, role, restarting, events]
+async fn run_timer_case(case: &Val) -> (Val, f64) {
+    let t_start = std::time::Instant::now();
+    let l = case.list();
+    let (lid, lasn) = (l[0].u32(), l[1].u32());
+    let lcap = caps_of(&l[2]);
+    let role = if l[5].int() == 0 { Role::Active } else { Role::Passive };
+    let restarting = l[6].bool();
+    let fsm = crate::fsm::PeerFsm::new(lid, lasn, lcap.clone(), l[3].u64(), l[4].u32(), FnvHashMap::default());
+    let context = hx_context(fsm);
+    let tables: TableHandle = Arc::new(TableManager::new(1));
+    let (client, server) = hx_loopback().await;
+    let remote_sa = server.peer_addr().unwrap();
+    let local_sa = server.local_addr().unwrap();
+    let mut session = PeerSession::new_for_test(remote_sa.ip(), context.clone(), tables);
+    // new_for_test installs its own arbiter; put the case's FSM back
+    let arbiter = Arc::new(std::sync::Mutex::new(ConnArbiter::new(crate::fsm::PeerFsm::new(
+        lid,
+        lasn,
+        lcap.clone(),
+        l[3].u64(),
+        l[4].u32(),
+        FnvHashMap::default(),
+    ))));
+    context.lock().unwrap().conn_arbiter = Arc::clone(&arbiter);
+    session.conn_arbiter = Arc::clone(&arbiter);
+    session.role = role;
+    session.local_cap = lcap;
+    session.is_restarting = restarting;
+    session.export_ctx.local_asn = lasn;
+    session.local_router_id = Ipv4Addr::from(lid);
+    // accept_connection: the arbiter keeps this connection's close sender
+    let (close_tx, close_rx) = tokio::sync::oneshot::channel::<CloseReason>();
+    match role {
+        Role::Active => arbiter.lock().unwrap().active_close_tx = Some(close_tx),
+        Role::Passive => arbiter.lock().unwrap().passive_close_tx = Some(close_tx),
+    }
+    let close_rx: CloseRxFuture = Some(close_rx.fuse()).into();
+    let _ = tokio::time::timeout(Duration::from_secs(2), server.writable()).await;
+    let mut hx = Hx {
+        session,
+        global: hx_global(lasn, lid),
+        server,
+        client: Some(client),
+        rxbuf: bytes::BytesMut::with_capacity(PeerSession::RXBUF_SIZE),
+        close_rx,
+        local_sa,
+        remote_sa,
+        live: true,
+        lasn,
+        written: 0,
+        fin: false,
+        peer_codec: None,
+        closed_client: None,
+        outbuf: Vec::new(),
+    };
+    let mut out = Vec::new();
+    // session_loop prologue
+    {
+        let outputs = hx
+            .session
+            .conn_arbiter
+            .lock()
+            .unwrap()
+            .process(hx.session.role, Input::Connected(hx.session.is_restarting));
+        let (_, effects) = hx.session.apply_outputs(outputs, local_sa, remote_sa).await;
+        let g = hx.global.clone();
+        hx.session.process_effects(effects, &g).await;
+    }
+    out.push(hx.obs(&Step::Continue));
+    for e in l[7].list() {
+        let el = e.list();
+        let mut step = Step::Continue;
+        if hx.live {
+            match el[0].int() {
+                0 => {
+                    let dt = el[1].u64();
+                    shift_slot(&mut hx.session.holdtime_futures, dt);
+                    shift_slot(&mut hx.session.keepalive_futures, dt);
+                }
+                1 => {
+                    let mut bytes: Vec<u8> = Vec::new();
+                    let mut enc = bgp::PeerCodec::new();
+                    for it in el[1].list() {
+                        if hx.client.is_some() {
+                            hx.written += 1;
+                        }
+                        if it.at(0).int() == 0 {
+                            let m = msg_of(it.at(1));
+                            if let (bgp::Message::Open(o), None) = (&m, &hx.peer_codec) {
+                                // the codec the session will parse later messages with
+                                hx.peer_codec =
+                                    Some(bgp::PeerCodec::negotiate(&hx.session.local_cap, &o.capability));
+                            }
+                            let mut b = bytes::BytesMut::new();
+                            enc.encode_to(&m, &mut b).expect("encode");
+                            bytes.extend_from_slice(&b);
+                        } else {
+                            let dflt = bgp::PeerCodec::new();
+                            let codec = hx.peer_codec.as_ref().unwrap_or(&dflt);
+                            bytes.extend_from_slice(&loop_update_bytes(codec, hx.lasn));
+                        }
+                    }
+                    // arrival only matters at the next select: the bytes are put on the
+                    // wire there, in one write, so that one read finds them all
+                    if hx.client.is_some() {
+                        hx.outbuf.extend_from_slice(&bytes);
+                    }
+                }
+                2 => {
+                    // half-close: the FIN is sent, the socket stays open so that the
+                    // session's own writes do not run into a reset
+                    hx.flush_client().await;
+                    if let Some(mut c) = hx.client.take() {
+                        let _ = c.shutdown().await;
+                        hx.closed_client = Some(c);
+                        hx.fin = true;
+                    }
+                }
+                3 => {
+                    let cr = match el[1].at(0).int() {
+                        0 => CloseReason::AdminShutdown,
+                        1 => CloseReason::SendMessage(bgp::Message::Notification(
+                            rustybgp_packet::Notification::from_notification(
+                                el[1].at(1).u8(),
+                                el[1].at(2).u8(),
+                                Vec::new(),
+                            ),
+                        )),
+                        _ => CloseReason::Silent,
+                    };
+                    let tx = {
+                        let mut arb = hx.session.conn_arbiter.lock().unwrap();
+                        match role {
+                            Role::Active => arb.active_close_tx.take(),
+                            Role::Passive => arb.passive_close_tx.take(),
+                        }
+                    };
+                    if let Some(tx) = tx {
+                        let _ = tx.send(cr);
+                    }
+                }
+                4 => {
+                    hx.session
+                        .pending
+                        .entry(Family::IPV4)
+                        .or_insert_with(|| crate::peer_tx::PendingTx::new(false))
+                        .buffer_messages(vec![bgp::Message::eor(Family::IPV4)]);
+                }
+                5 => {
+                    step = hx.select_once().await;
+                    // the model's "something is pending" is exactly what the harness put there
+                    if matches!(step, Step::Terminate { .. }) {
+                        hx.live = false;
+                    }
+                }
+                6 => {
+                    let other = if role == Role::Active { Role::Passive } else { Role::Active };
+                    let _ = hx.session.conn_arbiter.lock().unwrap().process(other, input_of(&el[1]));
+                }
+                t => panic!("verif: bad event tag {}", t),
+            }
+        }
+        out.push(hx.obs(&step));
+    }
+    (Val::L(out), t_start.elapsed().as_secs_f64())
+}
+
+fn run_timer_case_sync(case: &Val) -> Val {
+    // a case must take well under half a second of real time for the
+    // rounding of deadlines to whole seconds to be exact; retry when the
+    // machine stalled
+    let mut last = Val::L(vec![]);
+    for _ in 0..4 {
+        let (v, secs) = rt().block_on(run_timer_case(case));
+        last = v;
+        if secs < 0.25 {
+            break;
+        }
+    }
+    last
+}
+
+#[test]
+fn verif_timer_cases() {
+    val::run_cases(run_timer_case_sync);
+}
+
+// ---------------------------------------------------------------- C16
+// case = [local caps, remote caps, send_max, families]:
+// negotiate_gr / negotiate_llgr of a session in both directions, and for each
+// family the driver's effective send-max (from the FSM's SessionEstablished)
+// next to the codec's addpath_tx.
+fn gr_val(g: &Option<NegotiatedGr>) -> Val {
+    match g {
+        Some(g) => Val::L(vec![
+            Val::L(g.families.iter().map(fam_val).collect()),
+            Val::n(g.restart_time.as_secs()),
+            Val::b(g.notification_enabled),
+        ]),
+        None => Val::L(vec![]),
+    }
+}
+
+fn llgr_val(g: &Option<NegotiatedLlgr>) -> Val {
+    match g {
+        Some(g) => Val::L(vec![Val::L(
+            g.families
+                .iter()
+                .map(|(f, d)| Val::L(vec![fam_val(f), Val::n(d.as_secs())]))
+                .collect(),
+        )]),
+        None => Val::L(vec![]),
+    }
+}
+
+fn session_with_caps(local: &[bgp::Capability]) -> PeerSession {
+    let fsm = crate::fsm::PeerFsm::new(1, 65000, local.to_vec(), 90, 0, FnvHashMap::default());
+    let context = hx_context(fsm);
+    let tables: TableHandle = Arc::new(TableManager::new(1));
+    let mut s = PeerSession::new_for_test("127.0.0.9".parse().unwrap(), context, tables);
+    s.local_cap = local.to_vec();
+    s
+}
+
+fn emax_val(lc: &[bgp::Capability], rc: &[bgp::Capability], smax: &Val, fams: &Val) -> Val {
+    let mut sm: FnvHashMap<Family, usize> = FnvHashMap::default();
+    for p in smax.list() {
+        sm.insert(fam_of(p.at(0)), p.at(1).usize());
+    }
+    let mut fsm = crate::fsm::PeerFsm::new(200, 65000, lc.to_vec(), 90, 0, sm);
+    let open = bgp::Message::Open(bgp::Open {
+        as_number: 65001,
+        router_id: 100,
+        holdtime: HoldTime::new(30).unwrap(),
+        capability: rc.to_vec(),
+    });
+    fsm.process(Role::Active, Input::Connected(false));
+    fsm.process(Role::Active, Input::MessageReceived(open));
+    let outs = fsm.process(Role::Active, Input::MessageReceived(bgp::Message::Keepalive));
+    let mut em: FnvHashMap<Family, usize> = FnvHashMap::default();
+    for o in outs {
+        if let crate::fsm::PeerFsmOutput::Connection(
+            _,
+            crate::fsm::Output::SessionEstablished { effective_max, .. },
+        ) = o
+        {
+            em = effective_max;
+        }
+    }
+    // PeerSession::effective_max(family)
+    let mut s = session_with_caps(lc);
+    s.effective_max = em;
+    let codec = bgp::PeerCodec::negotiate(lc, rc);
+    Val::L(
+        fams.list()
+            .iter()
+            .map(|fv| {
+                let f = fam_of(fv);
+                Val::L(vec![
+                    fam_val(&f),
+                    Val::us(s.effective_max(f)),
+                    Val::b(codec.family_state(f).is_some_and(|st| st.addpath_tx)),
+                ])
+            })
+            .collect(),
+    )
+}
+
+fn run_neg_case(case: &Val) -> Val {
+    let _g = rt().enter();
+    let l = case.list();
+    let lc = caps_of(&l[0]);
+    let rc = caps_of(&l[1]);
+    let a = session_with_caps(&lc);
+    let b = session_with_caps(&rc);
+    Val::L(vec![
+        gr_val(&a.negotiate_gr(&rc)),
+        llgr_val(&a.negotiate_llgr(&rc)),
+        gr_val(&b.negotiate_gr(&lc)),
+        llgr_val(&b.negotiate_llgr(&lc)),
+        emax_val(&lc, &rc, &l[2], &l[3]),
+    ])
+}
+
+#[test]
+fn verif_neg_cases() {
+    val::run_cases(run_neg_case);
+}
+
+// C10 / C11 glue harness (unit u4)
+mod gr_glue { include!(concat!(env!("VERIF_HX_DIR"), "/daemon/event_gr_hx.rs")); }
+
+// C01 session-level harness (unit u13)
+mod c01 { include!(concat!(env!("VERIF_HX_DIR"), "/daemon/event_c01_hx.rs")); }
